@@ -29,8 +29,8 @@ AttrsFailing(e) ==
   LET c == Case(e)
       its == Items(c) IN
   IF Conform(ExpectedI(its), e.obs) THEN {}
-  ELSE LET d == DevAttrs(c) IN
-       IF DevExplains(d, e.obs) THEN {"dev:" \o d.key}
+  ELSE LET k == DevKey(c, e.obs) IN
+       IF k # "" THEN {"dev:" \o k}
        ELSE IF e.obs.err # "" THEN {"unexpected_exception"}
        ELSE IF e.obs.spill THEN {"left_the_tag"}
        ELSE {"attributes"}
